@@ -792,6 +792,7 @@ fn concurrent_callers_sampling(run: &Run, thorough: bool) {
     use std::sync::atomic::{AtomicBool, AtomicU64, Ordering};
     let per_batch = 300usize;
     let batches = if thorough { 20 } else { 5 };
+    let singles = if thorough { 6000usize } else { 1500 };
     let done = AtomicBool::new(false);
     let applied = AtomicU64::new(0);
     let problems: parking_lot::Mutex<Vec<(String, String)>> = parking_lot::Mutex::new(vec![]);
@@ -816,6 +817,13 @@ fn concurrent_callers_sampling(run: &Run, thorough: bool) {
                     })
                     .collect();
                 note("batches-of-new-covenants", guard(|| st.apply_tx_batch(&txs)));
+            }
+            // ... and then one at a time (a mempool): every call is a batch of its own, so whatever a batch does when it starts
+            // (trimming a table that has grown) now happens a thousand times while the other callers are in mid-flight
+            for i in 0..singles {
+                let k = (batches * per_batch + i) as u64;
+                let t = mktx(TxKind::Faucet, vec![], vec![out_t(1, Denom::Mel)], 0, vec![Covenant::from_ops(&[OpCode::PushI(k.into()), OpCode::PushI(1u8.into())]).to_bytes()], k.to_be_bytes().to_vec());
+                note("single-faucets-with-new-covenants", guard(|| st.apply_tx(&t)));
             }
             done.store(true, Ordering::Release);
         });
@@ -846,7 +854,7 @@ fn concurrent_callers_sampling(run: &Run, thorough: bool) {
     run.transitions_add(n);
     run.validated_add(n);
     let problems = problems.into_inner();
-    run.set("concurrent_callers", json!({"kind": "sampling of schedules (free-running threads), not exhaustive", "distinct_covenants_in_batches": per_batch * batches, "applications_accepted": n, "problems": problems.len()}));
+    run.set("concurrent_callers", json!({"kind": "sampling of schedules (free-running threads), not exhaustive", "distinct_covenants_in_batches": per_batch * batches, "single_applications_with_new_covenants": singles, "applications_accepted": n, "problems": problems.len()}));
     run.outcome(if problems.is_empty() { "concurrent-callers:nothing-panicked" } else { "concurrent-callers:problems" });
     if let Some((class, msg)) = problems.first() {
         run.violation("C09", format!("concurrent-callers/{}", class), format!("while one thread applied batches of faucets listing {} covenants never seen before, another applied single transactions to a second chain and a third sealed blocks on a third chain: {} ({} problem(s) in all)", per_batch * batches, msg, problems.len()), json!({"threads": 3, "distinct_covenants": per_batch * batches}));
